@@ -41,6 +41,33 @@ for _c in ("InputCount", "Conservation", "WrittenCount", "WrittenMatchesFiles", 
     CLAUSES["C04"]["Report." + _c] = "Report" + _c
 
 
+# ---- blame filter ---------------------------------------------------------------------------------------------
+# Trace_Run!Blame names, per read, the modifier stages of the recorded one-core chain that deviate locally from
+# their specification.  Each stage is owned by the properties whose statement is about it; a check does not report
+# a model-dependent clause on a read whose deviation is explained by stages that only other properties own
+# (that deviation is theirs to report).  Clauses that compare observations with observations are never filtered.
+OWNERS = {
+    "cut": {"C03", "C10"}, "nextseq": {"C13"}, "qtrim": {"C13"}, "polya": {"C14"}, "trimn": {"C14"},
+    "shorten": {"C03", "C10"}, "zerocap": {"C03", "C10"}, "name": {"C10"},
+    "orient": {"C16"}, "choice": {"C09", "C05"}, "action": {"C03"}, "adapter": {"C03", "C05", "C09", "C16"},
+}
+OBSERVATION_ONLY = {"Struct1", "Struct2", "PairSync", "Report.InputCount", "Report.Conservation", "Report.WrittenMatchesFiles",
+                    "Report.InputBasePairs", "Report.TextFateEqualsJson", "Report.MinimalEqualsJson",
+                    "Demux.FileForEveryName", "Demux.MultisetEqualsPlainRun", "Info.RowForEveryInputRead",
+                    "Info.MiddleIsCoordinates", "Info.QualitiesSplitAlike"}
+
+
+def explained_elsewhere(pid, e, clause, k):
+    """True if the deviation behind (clause, read k) of run e is explained by stages owned by other properties only."""
+    if clause in OBSERVATION_ONLY:
+        return False
+    blame = e.get("_blame") or {}
+    labs = set(blame.get(k, [])) if k is not None else set().union(*[set(v) for v in blame.values()]) if blame else set()
+    if not labs:
+        return False
+    return not any(pid in OWNERS.get(lab, set()) for lab in labs)
+
+
 def prop_clause(pid, clause):
     m = CLAUSES[pid]
     if clause in m:
@@ -81,6 +108,11 @@ def run_family_check(ctx, pid, n_quick, n_thorough, want=("report",), config_hoo
     seen = set()
     for e, clause, k in viols:
         pc = prop_clause(pid, clause)
+        if pc is not None and explained_elsewhere(pid, e, clause, k):
+            d = ctx.extra.setdefault("deviations_attributed_to_other_properties", {})
+            key = pc + " <- " + ",".join(sorted(set().union(*[set(v) for v in (e.get("_blame") or {}).values()])))
+            d[key] = d.get(key, 0) + 1
+            continue
         if pc is None:
             ctx.extra.setdefault("other_clauses_rejected", {})
             ctx.extra["other_clauses_rejected"][clause] = ctx.extra["other_clauses_rejected"].get(clause, 0) + 1
@@ -135,7 +167,7 @@ def replay(ctx, path):
     seen = set()
     for clause, k in out.get(0, []):
         pc = prop_clause(pid, clause)
-        if pc is None or (pc, k) in seen:
+        if pc is None or (pc, k) in seen or explained_elsewhere(pid, ev, clause, k):
             continue
         seen.add((pc, k))
         ctx.violation(pc, signature(pid, pc, ev, k), dict(RF.brief(ev, k), trace_clause=clause))
